@@ -27,29 +27,35 @@ theorem endOffsets_prev (acc : Nat) (l : List Bytes) (x e : Bytes) (r : List Byt
   simp only [List.append_assoc, List.singleton_append] at this ⊢
   rw [this]; simp; omega
 
+theorem flatten_cons_length (e : Bytes) (es : List Bytes) :
+    (e :: es).flatten.length = e.length + es.flatten.length := by
+  simp only [List.flatten_cons, List.length_append]
+
 theorem endOffsets_le (acc : Nat) (es : List Bytes) : ∀ o ∈ endOffsets acc es, o ≤ acc + es.flatten.length := by
   induction es generalizing acc with
   | nil => simp [endOffsets]
   | cons e es ih =>
     intro o ho
     simp only [endOffsets, List.mem_cons] at ho
+    rw [flatten_cons_length]
     rcases ho with h | h
-    · subst h; simp
+    · subst h; omega
     · have := ih (acc + e.length) o h
-      simp; omega
+      omega
 
 theorem endOffsets_getLast (acc : Nat) (es : List Bytes) (h : es ≠ []) :
     (endOffsets acc es).getLast? = some (acc + es.flatten.length) := by
   induction es generalizing acc with
   | nil => exact absurd rfl h
   | cons e es ih =>
+    rw [flatten_cons_length]
     cases es with
     | nil => simp [endOffsets]
     | cons e2 es =>
       have := ih (acc + e.length) (by simp)
       simp only [endOffsets] at this ⊢
       rw [List.getLast?_cons_cons, this]
-      simp; omega
+      congr 1; omega
 
 /-- in the small form every offset fits two bytes -/
 theorem small_list_bound (es : List Bytes) (h : isBigList (endOffsets 0 es) = false) :
@@ -60,7 +66,8 @@ theorem small_list_bound (es : List Bytes) (h : isBigList (endOffsets 0 es) = fa
   have hle := endOffsets_le 0 es o ho
   unfold isBigList at h
   rw [hl] at h
-  simp at h
+  simp only [Nat.zero_add, endOffsets_length, Bool.or_eq_false_iff, decide_eq_false_iff_not,
+    Nat.not_lt] at h
   omega
 
 theorem encListTable_length (big : Bool) (offs : List Nat) :
@@ -68,7 +75,78 @@ theorem encListTable_length (big : Bool) (offs : List Nat) :
   unfold encListTable
   induction offs with
   | nil => simp
-  | cons o os ih => simp [List.flatMap_cons, ih, Nat.succ_mul]; omega
+  | cons o os ih => simp only [List.flatMap_cons, List.length_append, toBE_length, ih, List.length_cons, Nat.succ_mul]; omega
+
+theorem flatMap_toBE_length (k : Nat) (xs : List Nat) :
+    (xs.flatMap fun o => toBE k o).length = xs.length * k := by
+  induction xs with
+  | nil => simp
+  | cons o os ih =>
+    simp only [List.flatMap_cons, List.length_append, toBE_length, List.length_cons, Nat.succ_mul, ih]
+    omega
+
+theorem getElem_of_getElem? {α} (xs : List α) (i : Nat) (v : α) (h : xs[i]? = some v) :
+    ∃ hi : i < xs.length, xs[i] = v := by
+  have hi : i < xs.length := by
+    by_cases c : i < xs.length
+    · exact c
+    · rw [List.getElem?_eq_none (by omega)] at h; simp at h
+  refine ⟨hi, ?_⟩
+  rw [List.getElem?_eq_getElem hi] at h
+  exact Option.some.inj h
+
+/-- Get(i) on a list value whose table holds `offs` in entries of width `k` -/
+theorem getBytes_core (k : Nat) (big : Bool) (hk : (if big then listElemBig else listElemSmall) = k)
+    (hk0 : 0 < k) (offs : List Nat) (hbound : ∀ o ∈ offs, o < 256 ^ k)
+    (l : List Bytes) (e : Bytes) (r : List Bytes) (rest : Bytes)
+    (hoff : offs[l.length]? = some (l.flatten.length + e.length))
+    (hprev : ∀ l0 x, l = l0 ++ [x] → offs[l0.length]? = some l.flatten.length) :
+    (ListV.mk ⟨offs.flatMap (fun o => toBE k o), (l ++ e :: r).flatten.length, big⟩
+        ((l ++ e :: r).flatten ++ rest)).getBytes l.length = .ok e := by
+  obtain ⟨hi, hget⟩ := getElem_of_getElem? _ _ _ hoff
+  have hdata : (l ++ e :: r).flatten = l.flatten ++ e ++ r.flatten := by simp
+  unfold ListV.getBytes Table.listOffset
+  simp only [hk, flatMap_toBE_length]
+  have c1 : ¬ (l.length ≥ offs.length * k / k) := by
+    rw [Nat.mul_div_cancel _ hk0]; omega
+  simp only [c1, ↓reduceIte]
+  have hread := readBE_flatMap k offs l.length hi hbound
+  rw [hget] at hread
+  rw [hread]
+  by_cases c0 : l.length > 0
+  · have hne : l ≠ [] := by intro h0; subst h0; simp at c0
+    have hl0 : l = l.dropLast ++ [l.getLast hne] := (List.dropLast_concat_getLast hne).symm
+    have hp := hprev _ _ hl0
+    have hlen1 : l.dropLast.length = l.length - 1 := by simp
+    rw [hlen1] at hp
+    obtain ⟨hi2, hget2⟩ := getElem_of_getElem? _ _ _ hp
+    have hread2 := readBE_flatMap k offs (l.length - 1) hi2 hbound
+    rw [hget2] at hread2
+    have e1 : l.length * k - k = (l.length - 1) * k := by
+      rw [Nat.sub_mul]; simp
+    simp only [c0, ↓reduceIte, e1, hread2]
+    have c2 : ¬ (l.flatten.length + e.length > (l ++ e :: r).flatten.length ∨
+        l.flatten.length > l.flatten.length + e.length) := by
+      rw [hdata]; simp only [List.length_append]; omega
+    simp only [c2, ↓reduceIte]
+    rw [slice?_some _ _ _ (by omega) (by rw [hdata]; simp only [List.length_append]; omega)]
+    congr 1
+    rw [hdata]
+    have : l.flatten ++ e ++ r.flatten ++ rest = l.flatten ++ e ++ (r.flatten ++ rest) := by simp
+    rw [this, mid_slice l.flatten e _ _ _ rfl rfl]
+  · have hl0 : l = [] := by
+      cases l with
+      | nil => rfl
+      | cons a b => simp at c0
+    subst hl0
+    simp only [c0, ↓reduceIte]
+    simp only [List.flatten_nil, List.length_nil, Nat.zero_add, List.nil_append] at hdata ⊢
+    have c2 : ¬ (e.length > (e :: r).flatten.length ∨ 0 > e.length) := by
+      rw [flatten_cons_length]; omega
+    simp only [c2, ↓reduceIte]
+    rw [slice?_some _ _ _ (by omega) (by simp only [List.length_append, flatten_cons_length]; omega)]
+    have : (e :: r).flatten ++ rest = [] ++ e ++ (r.flatten ++ rest) := by simp
+    rw [this, mid_slice [] e _ 0 _ rfl (by simp)]
 
 /-- Reading back a list: `Len` is the number of elements and `Get(i)` returns exactly element `i`,
 behind any prefix, in the small and in the big table form. -/
@@ -76,116 +154,99 @@ theorem list_get (p : Bytes) (l : List Bytes) (e : Bytes) (r : List Bytes)
     (hsz : (l ++ e :: r).flatten.length + 4 * (l ++ e :: r).length < 2 ^ 32) :
     ∃ L, openListErr (p ++ encList (l ++ e :: r)) = .ok L ∧ L.len = (l ++ e :: r).length ∧
       L.getBytes l.length = .ok e := by
-  generalize hes : l ++ e :: r = es at *
-  have hd : es.flatten.length < 2 ^ 32 := by omega
-  let offs := endOffsets 0 es
-  let big := isBigList offs
-  have htl : (encListTable big offs).length = es.length * (if big then 4 else 2) := by
-    rw [encListTable_length]; simp [offs, listElemBig, listElemSmall]
-  have ht : (encListTable big offs).length < 2 ^ 32 := by
-    rw [htl]; split <;> omega
-  have key := decodeTable_enc tList tBigList listElemSmall listElemBig p es.flatten (encListTable big offs)
+  have hd : (l ++ e :: r).flatten.length < 2 ^ 32 := by omega
+  -- fix the table form
+  generalize hbig : isBigList (endOffsets 0 (l ++ e :: r)) = big
+  have henc : encList (l ++ e :: r) = (l ++ e :: r).flatten ++ encListTable big (endOffsets 0 (l ++ e :: r)) ++
+      putRevU32 (l ++ e :: r).flatten.length ++
+      putRevU32 (encListTable big (endOffsets 0 (l ++ e :: r))).length ++ [if big then tBigList else tList] := by
+    unfold encList; simp only [hbig]
+  have htl : (encListTable big (endOffsets 0 (l ++ e :: r))).length =
+      (l ++ e :: r).length * (if big then listElemBig else listElemSmall) := by
+    rw [encListTable_length, endOffsets_length]
+  have ht : (encListTable big (endOffsets 0 (l ++ e :: r))).length < 2 ^ 32 := by
+    rw [htl]; cases big <;> simp only [listElemBig, listElemSmall, ↓reduceIte, Bool.false_eq_true] <;> omega
+  have key := decodeTable_enc tList tBigList listElemSmall listElemBig p (l ++ e :: r).flatten
+    (encListTable big (endOffsets 0 (l ++ e :: r)))
     (if big then tBigList else tList) (by cases big <;> simp) (by decide)
     (by rw [htl]; cases big <;> simp [tList, tBigList, listElemBig, listElemSmall]) hd ht
-  have henc : encList es = es.flatten ++ encListTable big offs ++ putRevU32 es.flatten.length ++
-      putRevU32 (encListTable big offs).length ++ [if big then tBigList else tList] := rfl
   unfold openListErr decodeListTable
   rw [henc, key]
   simp only
-  rw [suffix_ok _ _ (by simp; omega)]
-  have hbig : ((if big then tBigList else tList) == tBigList) = big := by cases big <;> decide
+  rw [suffix_ok _ _ (by simp only [List.length_append, List.length_singleton]; omega)]
+  have hbt : ((if big then tBigList else tList) == tBigList) = big := by cases big <;> decide
+  have hlast := lastN_append' p ((l ++ e :: r).flatten ++ encListTable big (endOffsets 0 (l ++ e :: r)) ++
+      putRevU32 (l ++ e :: r).flatten.length ++
+      putRevU32 (encListTable big (endOffsets 0 (l ++ e :: r))).length ++ [if big then tBigList else tList])
+      ((l ++ e :: r).flatten.length + (encListTable big (endOffsets 0 (l ++ e :: r))).length +
+        (putRevU32 (l ++ e :: r).flatten.length).length +
+        (putRevU32 (encListTable big (endOffsets 0 (l ++ e :: r))).length).length + 1)
+      (by simp only [List.length_append, List.length_singleton])
   refine ⟨_, rfl, ?_, ?_⟩
-  · -- Len
-    simp only [ListV.len, Table.listLen, hbig, htl]
+  · simp only [ListV.len, Table.listLen, hbt, htl]
     cases big <;> simp [listElemBig, listElemSmall]
-  · -- Get
-    have hlast : lastN (es.flatten.length + (encListTable big offs).length + (putRevU32 es.flatten.length).length +
-        (putRevU32 (encListTable big offs).length).length + 1)
-        (p ++ (es.flatten ++ encListTable big offs ++ putRevU32 es.flatten.length ++
-          putRevU32 (encListTable big offs).length ++ [if big then tBigList else tList])) =
-        es.flatten ++ encListTable big offs ++ putRevU32 es.flatten.length ++
-          putRevU32 (encListTable big offs).length ++ [if big then tBigList else tList] :=
-      lastN_append' _ _ _ (by simp; omega)
-    rw [hlast]
-    -- offsets fit the entry width
-    have hbound : ∀ o ∈ offs, o < 256 ^ (if big then 4 else 2) := by
+  · rw [hlast, hbt]
+    have hbound : ∀ o ∈ endOffsets 0 (l ++ e :: r), o < 256 ^ (if big then listElemBig else listElemSmall) := by
       intro o ho
-      cases hb : big with
+      cases big with
       | true =>
-        have := endOffsets_le 0 es o ho
-        simp; omega
-      | false => simpa using small_list_bound es hb o ho
-    have hi : l.length < offs.length := by simp [offs, ← hes]
-    have hoff : offs[l.length]? = some (l.flatten.length + e.length) := by
-      have := endOffsets_split 0 l e r
-      rw [hes] at this; simpa [offs] using this
-    have hget : offs[l.length] = l.flatten.length + e.length := by
-      have := List.getElem?_eq_getElem hi; rw [hoff] at this; exact (Option.some.inj this).symm
-    have hread : readBE (encListTable big offs) (l.length * (if big then 4 else 2)) (if big then 4 else 2) =
-        some (l.flatten.length + e.length) := by
-      have := readBE_flatMap (if big then 4 else 2) offs l.length hi hbound
-      rw [hget] at this
-      unfold encListTable
-      cases big <;> simpa [listElemBig, listElemSmall] using this
-    have hdata : es.flatten = l.flatten ++ e ++ r.flatten := by rw [← hes]; simp
-    unfold ListV.getBytes Table.listOffset
-    simp only [hbig, htl]
-    have c1 : ¬ (l.length ≥ es.length * (if big then 4 else 2) / (if big then listElemBig else listElemSmall)) := by
-      have : es.length * (if big then 4 else 2) / (if big then listElemBig else listElemSmall) = es.length := by
-        cases big <;> simp [listElemBig, listElemSmall]
-      rw [this, ← hes]; simp
-    simp only [c1, ↓reduceIte]
-    have hes2 : (if big then listElemBig else listElemSmall) = (if big then 4 else 2) := by
-      cases big <;> rfl
-    rw [hes2, hread]
-    by_cases c0 : l.length > 0
-    · -- previous offset = start
-      obtain ⟨l0, x, hl0⟩ : ∃ l0 x, l = l0 ++ [x] := by
-        have hne : l ≠ [] := by intro h0; subst h0; simp at c0
-        exact ⟨l.dropLast, l.getLast hne, (List.dropLast_concat_getLast hne).symm⟩
-      have hprev : offs[l.length - 1]? = some l.flatten.length := by
-        have := endOffsets_prev 0 l0 x e r
-        rw [← hl0, hes] at this
-        have hl1 : l.length - 1 = l0.length := by rw [hl0]; simp
-        rw [hl1]; simpa [offs, hl0] using this
-      have hi2 : l.length - 1 < offs.length := by omega
-      have hget2 : offs[l.length - 1] = l.flatten.length := by
-        have := List.getElem?_eq_getElem hi2; rw [hprev] at this; exact (Option.some.inj this).symm
-      have hread2 : readBE (encListTable big offs) (l.length * (if big then 4 else 2) - (if big then 4 else 2))
-          (if big then 4 else 2) = some l.flatten.length := by
-        have := readBE_flatMap (if big then 4 else 2) offs (l.length - 1) hi2 hbound
-        rw [hget2] at this
-        have e1 : l.length * (if big then 4 else 2) - (if big then 4 else 2) = (l.length - 1) * (if big then 4 else 2) := by
-          cases big <;> simp <;> omega
-        rw [e1]
-        unfold encListTable
-        cases big <;> simpa [listElemBig, listElemSmall] using this
-      simp only [c0, ↓reduceIte, hread2]
-      have c2 : ¬ (l.flatten.length + e.length > es.flatten.length ∨ l.flatten.length > l.flatten.length + e.length) := by
-        rw [hdata]; simp; omega
-      simp only [c2, ↓reduceIte]
-      rw [slice?_some _ _ _ (by omega) (by rw [hdata]; simp; omega)]
-      congr 1
-      rw [hdata]
-      have : l.flatten ++ e ++ r.flatten ++ encListTable big offs ++ putRevU32 (l.flatten ++ e ++ r.flatten).length ++
-          putRevU32 (encListTable big offs).length ++ [if big then tBigList else tList] =
-          l.flatten ++ e ++ (r.flatten ++ encListTable big offs ++ putRevU32 (l.flatten ++ e ++ r.flatten).length ++
-          putRevU32 (encListTable big offs).length ++ [if big then tBigList else tList]) := by simp
-      rw [this]
-      exact mid_slice l.flatten e _ _ _ rfl rfl
-    · have hl0 : l = [] := by
-        cases l with
-        | nil => rfl
-        | cons a b => simp at c0
-      subst hl0
-      simp only [c0, ↓reduceIte]
-      simp only [List.flatten_nil, List.length_nil, Nat.zero_add] at hdata ⊢
-      have c2 : ¬ (e.length > es.flatten.length ∨ 0 > e.length) := by
-        rw [hdata]; simp
-      simp only [c2, ↓reduceIte]
-      rw [slice?_some _ _ _ (by omega) (by rw [hdata]; simp; omega)]
-      congr 1
-      rw [hdata]
-      simp
+        have := endOffsets_le 0 _ o ho
+        simp only [listElemBig, ↓reduceIte]; omega
+      | false => simpa [listElemSmall] using small_list_bound _ hbig o ho
+    have hoff : (endOffsets 0 (l ++ e :: r))[l.length]? = some (l.flatten.length + e.length) := by
+      simpa using endOffsets_split 0 l e r
+    have hprev : ∀ l0 x, l = l0 ++ [x] → (endOffsets 0 (l ++ e :: r))[l0.length]? = some l.flatten.length := by
+      intro l0 x hl
+      have := endOffsets_prev 0 l0 x e r
+      rw [← hl] at this; simpa using this
+    have core := getBytes_core (if big then listElemBig else listElemSmall) big rfl
+      (by cases big <;> simp [listElemBig, listElemSmall]) _ hbound l e r
+      (encListTable big (endOffsets 0 (l ++ e :: r)) ++ putRevU32 (l ++ e :: r).flatten.length ++
+        putRevU32 (encListTable big (endOffsets 0 (l ++ e :: r))).length ++ [if big then tBigList else tList])
+      hoff hprev
+    have eb : (l ++ e :: r).flatten ++ encListTable big (endOffsets 0 (l ++ e :: r)) ++
+        putRevU32 (l ++ e :: r).flatten.length ++
+        putRevU32 (encListTable big (endOffsets 0 (l ++ e :: r))).length ++ [if big then tBigList else tList] =
+        (l ++ e :: r).flatten ++ (encListTable big (endOffsets 0 (l ++ e :: r)) ++
+        putRevU32 (l ++ e :: r).flatten.length ++
+        putRevU32 (encListTable big (endOffsets 0 (l ++ e :: r))).length ++ [if big then tBigList else tList]) := by
+      simp only [List.append_assoc]
+    rw [eb]
+    exact core
+
+/-- DecodeListTable on an encoded list: the table the encoder wrote and exactly the encoded size -/
+theorem list_decode (p : Bytes) (es : List Bytes) (hsz : es.flatten.length + 4 * es.length < 2 ^ 32) :
+    decodeListTable (p ++ encList es) =
+      .ok (⟨encListTable (isBigList (endOffsets 0 es)) (endOffsets 0 es), es.flatten.length,
+            isBigList (endOffsets 0 es)⟩, (encList es).length) := by
+  have hd : es.flatten.length < 2 ^ 32 := by omega
+  generalize hbig : isBigList (endOffsets 0 es) = big
+  have henc : encList es = es.flatten ++ encListTable big (endOffsets 0 es) ++
+      putRevU32 es.flatten.length ++
+      putRevU32 (encListTable big (endOffsets 0 es)).length ++ [if big then tBigList else tList] := by
+    unfold encList; simp only [hbig]
+  have htl : (encListTable big (endOffsets 0 es)).length =
+      es.length * (if big then listElemBig else listElemSmall) := by
+    rw [encListTable_length, endOffsets_length]
+  have ht : (encListTable big (endOffsets 0 es)).length < 2 ^ 32 := by
+    rw [htl]; cases big <;> simp only [listElemBig, listElemSmall, ↓reduceIte, Bool.false_eq_true] <;> omega
+  have key := decodeTable_enc tList tBigList listElemSmall listElemBig p es.flatten
+    (encListTable big (endOffsets 0 es))
+    (if big then tBigList else tList) (by cases big <;> simp) (by decide)
+    (by rw [htl]; cases big <;> simp [tList, tBigList, listElemBig, listElemSmall]) hd ht
+  have hbt : ((if big then tBigList else tList) == tBigList) = big := by cases big <;> decide
+  unfold decodeListTable
+  rw [henc, key, hbt]
+  simp only [List.length_append, List.length_singleton]
+
+theorem openListErr_enc (p : Bytes) (es : List Bytes) (hsz : es.flatten.length + 4 * es.length < 2 ^ 32) :
+    openListErr (p ++ encList es) =
+      .ok ⟨⟨encListTable (isBigList (endOffsets 0 es)) (endOffsets 0 es), es.flatten.length,
+            isBigList (endOffsets 0 es)⟩, encList es⟩ := by
+  unfold openListErr
+  rw [list_decode p es hsz]
+  simp only
+  rw [suffix_ok _ _ (by simp), lastN_append]
+  rfl
 
 end SpecVerif
